@@ -88,6 +88,7 @@ class Ctx:
         self.samples = []
         self.disagreements = []
         self.violations = []
+        self._per_sig = {}
         self.counters = {}
         self.traces_validated = 0
         self.boundary_skipped = 0
@@ -127,7 +128,10 @@ class Ctx:
 
     def violation(self, signature, what, data):
         """the property itself fails on the real code, with a concrete input"""
-        if len(self.violations) < 200:
+        # keep a few per signature, so that a flood of one (possibly known) finding cannot crowd out a different one
+        n_sig = self._per_sig.get(signature, 0)
+        self._per_sig[signature] = n_sig + 1
+        if n_sig < 6 and len(self.violations) < 600:
             self.violations.append({"signature": signature, "what": what, "data": _jsonable(data)})
         self.count("violations_raw")
 
